@@ -619,6 +619,14 @@ func runFuzz(p propCfg, target, work string) (string, *violation) {
 		return note, nil
 	}
 	after := listFiles(filepath.Join(pkgDir, "testdata", "fuzz", target))
+	if rp := replayFromFuzzOutput(out); rp != "" {
+		for f := range after {
+			if !before[f] {
+				_ = os.Remove(f) // the JSON replay file is the reproducible unit; do not poison later runs
+			}
+		}
+		return note + " CRASHER", &violation{Target: "fuzz", Replay: rp, Message: firstFail(out), Source: "fuzz"}
+	}
 	for f := range after {
 		if !before[f] {
 			// move the crasher out of the package so that later runs are not poisoned
@@ -643,6 +651,20 @@ func firstFail(out string) string {
 		}
 	}
 	return tail(out, 5)
+}
+
+// replayFromFuzzOutput extracts the JSON replay file the fuzz target wrote.
+func replayFromFuzzOutput(out string) string {
+	for _, l := range strings.Split(out, "\n") {
+		if i := strings.Index(l, "violation: replay="); i >= 0 {
+			rest := l[i+len("violation: replay="):]
+			if j := strings.IndexByte(rest, ' '); j >= 0 {
+				rest = rest[:j]
+			}
+			return rest
+		}
+	}
+	return ""
 }
 
 func listFiles(dir string) map[string]bool {
